@@ -26,6 +26,9 @@ var c18HTMLTokens = []string{
 	"\u023a", "\xe9",
 	// URL-valued legacy attributes outside href/src
 	"<table background=\"",
+	// CDATA section delimiters (in HTML content a bogus comment that ends at the first '>'), and a
+	// complete element carrying a forbidden declaration, to be placed inside any of the wrappers
+	"<![CDATA[", "]]>", "<b style=\"position:fixed\">",
 }
 
 var c18CSSTokens = []string{"color", "position", "w\\69 dth", ":", ";", "red", "url(javascript:x)", "/*", "*/", "\"", "'", "@import", "{", "}", "\\", "!important", " ", "&#59 ", "&#x3a;", "(", ")"}
